@@ -294,7 +294,11 @@ def explore_stream(st: Stream, flavours: t.List[str]) -> evid.Local:
                         loc.violation(f"returned-message-not-self-contained:{e.tag}", str(e), {**case, "cuts": cuts, "flavour": fl})
                 # later deliveries never change a message already returned
                 if k == 0 and msgs and j < n:
-                    c.receive(s[j:])
+                    try:
+                        c.receive(s[j:])
+                    except BaseException as e:  # noqa: BLE001
+                        loc.violation(f"rest-of-stream-raises:{type(e).__name__}:{fl}", f"after a first chunk [0:{j}] the rest of a well-formed stream raised {type(e).__name__}: {e}", {**case, "cuts": cuts, "flavour": fl})
+                        continue
                     if [A.src(m) for m in msgs] != snap:
                         loc.violation("returned-message-changed-by-later-delivery", "a later delivery changed a message already returned", {**case, "cuts": cuts, "flavour": fl})
     return loc
